@@ -323,6 +323,7 @@ ssize_t __wrap_recv(int fd, void *buf, size_t len, int flags) {
 			c->s2c_read += n;
 			uint64_t sq = K.ev("recv c%d len=%zu -> %zu", c->idx, len, n);
 			c->recv_log.push_back({sq, c->s2c_read});
+			K.bytes_in_call += n;
 			syscall_tick(true);
 			return (ssize_t)n;
 		}
@@ -366,6 +367,7 @@ ssize_t __wrap_send(int fd, const void *buf, size_t len, int flags) {
 			c->c2s.append((const char *)buf, n);
 			uint64_t s = K.ev("send c%d len=%zu -> %zu (=%zu)", c->idx, len, n, c->c2s.size());
 			c->sent_log.push_back({s, c->c2s.size()});
+			K.bytes_in_call += n;
 			syscall_tick(true);
 			return (ssize_t)n;
 		}
